@@ -114,7 +114,7 @@ fn judge_mesh(pts: &[Point3], faces: &[[u32; 3]], case: &Case, l: &mut Local) {
             }
             Err(e) => format!("PANIC {}", e),
         };
-        verif::set_budget(u64::MAX);
+        reset_budget();
         o
     });
     l.evals_n(runs as u64);
@@ -140,7 +140,7 @@ fn judge_mesh(pts: &[Point3], faces: &[[u32; 3]], case: &Case, l: &mut Local) {
     let (runs, outs, capped) = explore_choices(MAX_DEV, EXEC_CAP, || {
         verif::set_budget(budget);
         let res = guarded(|| mesh.calc_edges().map(|e| (e.edges.clone(), e.edge_lengths.clone(), e.face_edges.clone(), e.boundary_loops.clone())).map_err(|e| e.to_string()));
-        verif::set_budget(u64::MAX);
+        reset_budget();
         match res {
             Ok(Ok((edges, lengths, face_edges, loops))) => {
                 let mut problems = Vec::new();
@@ -207,7 +207,7 @@ fn judge_mesh(pts: &[Point3], faces: &[[u32; 3]], case: &Case, l: &mut Local) {
         let (runs, outs, _capped) = explore_choices(MAX_DEV, EXEC_CAP, || {
             verif::set_budget(budget * 4);
             let res = guarded(|| mesh.get_patch_boundary_points().map_err(|e| e.to_string()));
-            verif::set_budget(u64::MAX);
+            reset_budget();
             match res {
                 Ok(Ok(loops)) => {
                     let idx_of = |p: &Point3| pts.iter().position(|q| q == p).map(|i| i as u32);
@@ -242,7 +242,7 @@ fn judge_mesh(pts: &[Point3], faces: &[[u32; 3]], case: &Case, l: &mut Local) {
     // ---- patch boundaries terminate
     verif::set_budget(budget * 4);
     let pb = guarded(|| mesh.get_patch_boundary_points().map(|v| v.len()).map_err(|e| e.to_string()));
-    verif::set_budget(u64::MAX);
+    reset_budget();
     l.eval();
     l.check("patch boundary extraction terminates", "", pb.is_ok(), mk, || format!("{:?}: {:?}", faces, pb));
 }
@@ -343,7 +343,7 @@ fn judge_voxels(case: &Case, l: &mut Local) {
             }
             Err(e) => format!("PANIC {}", e),
         };
-        verif::set_budget(u64::MAX);
+        reset_budget();
         o
     });
     l.evals_n(runs as u64);
@@ -364,7 +364,7 @@ fn judge_pairs(case: &Case, l: &mut Local) {
     l.eval();
     verif::set_budget((10 * n * n + 100) as u64);
     let r = guarded(|| chained_indices(list));
-    verif::set_budget(u64::MAX);
+    reset_budget();
     match r {
         Err(e) => {
             l.check("index chaining terminates and returns", if e.contains("VERIF_BUDGET") { "budget" } else { "panic" }, false, mk, || format!("{:?}: {}", list, e));
